@@ -292,14 +292,6 @@ def run(ctx):
     rows_p = execute(ctx, binp, runs_p, "pairs", shards) if runs_p else []
     rows_s = execute(ctx, binp, runs_s, "size", shards)
     rows_r = execute(ctx, binp, runs_r, "random", shards)
-    skipped = [r for r in rows_t + rows_p if r["ev"] == "Skip"]
-    if skipped:
-        raise Undecided("the harness could not execute %d exported steps, e.g. %s" % (len(skipped), skipped[0].get("why")))
-    made = sum(1 for r in rows_t if r["ev"] == "Make")
-    pert = sum(1 for r in rows_t if r["ev"] == "Perturb")
-    if pert != nops or made < nprefix:
-        raise Undecided("harness executed %d of %d exported perturbations on %d of %d made blocks" % (pert, nops, made, nprefix))
-
     # ---- 5. trace validation -------------------------------------------------------------------
     # (a TLC start costs ~8 s, an event well under a millisecond: few, large chunks)
     chunk = max(4000, (len(rows_t) + len(rows_p)) // 6 + 1)
@@ -308,10 +300,22 @@ def run(ctx):
     vr = core.validate_traces(ctx, "TMBlockValidityTrace", rows_r, label="random", max_events=max(4000, len(rows_r) // 4 + 1), timeout=1500, heap="4g")
 
     # ---- 6. verdict ----------------------------------------------------------------------------
+    # the replay must be complete for an "all clear"; a violation observed on an incomplete replay (runs of a
+    # broken tree end early) is reported all the same
+    skipped = [r for r in rows_t + rows_p if r["ev"] == "Skip"]
+    made = sum(1 for r in rows_t if r["ev"] == "Make")
+    pert = sum(1 for r in rows_t if r["ev"] == "Perturb")
+    incomplete = None
+    if skipped:
+        incomplete = "the harness could not execute %d exported steps, e.g. %s" % (len(skipped), skipped[0].get("why"))
+    elif pert != nops:
+        incomplete = "harness executed %d of %d exported perturbations" % (pert, nops)
     verdict = core.Verdict(ctx)
     classify(ctx, verdict, vt, "graph")
     classify(ctx, verdict, vs, "size")
     classify(ctx, verdict, vr, "random")
+    if incomplete and not verdict.new:
+        raise Undecided(incomplete)
     drift = vt["drift"] + vs["drift"] + vr["drift"]
 
     allrows = rows_t + rows_p + rows_s + rows_r
@@ -339,7 +343,7 @@ def run(ctx):
         "samples": [core.abridge([r for r in rows_t if r["ev"] == "Perturb"][:3], 3),
                     core.abridge([{k: r[k] for k in ("ev", "resp", "ok", "sA", "sB", "post")} for r in rows_t if r["ev"] == "Apply"][:1], 1),
                     core.abridge([{k: r[k] for k in ("ev", "bytes", "partsBytes", "maxBytes", "nVals", "nLastVals", "ntx")} for r in sizes[:3]], 3)],
-        "exhaustive": not skip_design,
+        "exhaustive": not skip_design and not incomplete,
         "tlc_runs": ctx.tlc_stats,
         "graph_histories_replayed": len(runs_t),
         "pair_histories_replayed_without_perturbations": len(runs_p),
